@@ -92,10 +92,18 @@ func mkLine(lineT types.Type, id string, idx, amb int64) *eval.StructVal {
 	r.F["id"] = eval.S(id)
 	r.F["idx"] = eval.K(idx)
 	r.F["ambCount"] = eval.K(amb)
-	r.F["snpCount"] = eval.K(0)
-	r.F["snps"] = eval.NewSlice()
-	r.F["snpsSorted"] = eval.NewSlice()
-	r.F["snpsPos"] = eval.NewSlice()
+	// a record's SNP count says nothing about its distance to another record (ambiguity tracts mask any number of the
+	// other's SNPs): the harness gives unrelated counts, and what is ranked must be the classifier's distance alone
+	k := (idx*5 + amb*3 + int64(len(id))) % 17
+	r.F["snpCount"] = eval.K(k)
+	var snps, pos []eval.Value
+	for i := int64(0); i < k; i++ {
+		snps = append(snps, eval.S(fmt.Sprintf("A%dC", 100+i)))
+		pos = append(pos, eval.K(100+i))
+	}
+	r.F["snps"] = eval.NewSlice(snps...)
+	r.F["snpsSorted"] = eval.NewSlice(snps...)
+	r.F["snpsPos"] = eval.NewSlice(pos...)
 	r.F["ambs"] = eval.NewSlice()
 	return r
 }
@@ -243,10 +251,11 @@ func c08Bins(c *core.Ctx, lineT types.Type) {
 		streams := enumUD(maxN, []int{bin}, []int{1, 2}, []int{0, 1})
 		for _, ts := range streams {
 			for K := 1; K <= maxN; K++ {
-				for _, lim := range []int{1, M} {
+				for _, lims := range [][2]int{{1, M}, {M, M}, {1, 1}, {2, 1}} { // this bin's limit, the other bins' (--dist-up 1; none; --dist-all 1; mixed)
+					lim := lims[0]
 					var size, dist [4]int
 					size[bin] = K
-					dist = [4]int{M, M, M, M}
+					dist = [4]int{lims[1], lims[1], lims[1], lims[1]}
 					dist[bin] = lim
 					nEval++
 					res, ev, err := run(ts, size, true, dist, nil)
@@ -256,7 +265,7 @@ func c08Bins(c *core.Ctx, lineT types.Type) {
 					}
 					for _, sc := range ev.SortCalls {
 						sortPos = sc.Pos
-						if sc.Func != "sort.SliceStable" {
+						if unstableRecordSort(sc) {
 							stable = false
 						}
 					}
@@ -369,7 +378,7 @@ func c08Push(c *core.Ctx, lineT types.Type) {
 					continue
 				}
 				for _, sc := range ev.SortCalls {
-					if sc.Func != "sort.SliceStable" {
+					if unstableRecordSort(sc) {
 						stable = false
 					}
 				}
